@@ -27,6 +27,14 @@ class C18(Prop):
         "PrefVerif.C12DP.partition_perm",
         "PrefVerif.C12DP.partition_axes",
         "PrefVerif.C12DP.partitionLoop_fuel",
+        "PrefVerif.C18BF.bf_cert",
+        "PrefVerif.C18BF.bf_at_cap",
+        "PrefVerif.C18BF.cap_safe",
+        "PrefVerif.C18BF.singleton_pair_combinations_sound",
+        "PrefVerif.C18BF.singleton_pair_combinations_complete",
+        "PrefVerif.C18BF.fuel_sufficient",
+        "PrefVerif.C18BF.bf_not_complete",
+        "PrefVerif.C18BF.bf_not_minimal",
         "PrefVerif.Specs.setPartitions_sound",
         "PrefVerif.Specs.setPartitions_complete",
         "PrefVerif.Specs.partitionCert_iff",
@@ -39,10 +47,20 @@ class C18(Prop):
                ("k_alt_partition_approx", "k_alternative_partition_brut_force", "dfs", "extend",
                 "singleton_pair_combinations")] + \
               [("preflibtools.properties.subdomains.ordinal.singlepeaked.k_alternative_deletion", n) for n in
-               ("longest_single_peaked_axis", "place", "get_L_sets")]
+               ("longest_single_peaked_axis", "place", "get_L_sets", "case_2", "case_3", "check_case_4", "boundary",
+                "eligible_alternatives", "last_check")]
 
     def corpus(self):
-        return [{"kind": "part", "alts": [1, 2, 3], "orders": [[2, 3, 1], [3, 1, 2], [1, 2, 3]]}] + super().corpus()
+        return [{"kind": "part", "alts": [1, 2, 3], "orders": [[2, 3, 1], [3, 1, 2], [1, 2, 3]]},
+                # D19: the depth-first search misses the 2-axis partition {1,5}, {6,4,3,2}
+                {"kind": "part", "alts": [1, 2, 3, 4, 5, 6],
+                 "orders": [[1, 2, 3, 4, 5, 6], [5, 2, 3, 4, 1, 6], [5, 1, 4, 3, 6, 2]]}] + super().corpus()
+
+    def finding_predicates(self):
+        # D19: the pinned algorithm itself (as modelled in Lean, output-identical to the real function) misses the
+        # optimum; a changed implementation no longer agrees with the model and is reported
+        return {"C18/pinned-dfs-misses-optimum":
+                lambda p: p.site in ("brute/none", "brute/minimum") and p.detail.get("model_agrees") is True}
 
     def generate(self, rng, n, deep=False):
         for i in range(n):
@@ -99,6 +117,8 @@ class C18(Prop):
             c = {"axes2": r[1]} if r[0] == "ok" and isinstance(r[1], list) else {}
             reqs.append({"op": "dom.nearly", "alts": case["alts"], "orders": [[[x] for x in o] for o in case["orders"]],
                          "brute": False, "certs": c})
+        for k in obs["brute"]:
+            reqs.append({"op": "kalt.bf", "alts": case.get("store", case["alts"]), "orders": case["orders"], "k": int(k)})
         return reqs
 
     def nontrivial_key(self, case, obs):
@@ -106,7 +126,8 @@ class C18(Prop):
 
     def judge(self, case, obs, replies):
         out = []
-        P = lambda what, site: out.append(Problem("violation", case, what, site))
+        agrees = None
+        P = lambda what, site: out.append(Problem("violation", case, what, site, {"model_agrees": agrees}))
         rep0 = replies[0]
         a = obs["approx"]
         if a[0] != "ok" or not isinstance(a[1], list):
@@ -122,8 +143,16 @@ class C18(Prop):
                                    "model/approx"))
             elif mp != a[1]:
                 self.count("approx-drift")
-        for (k, r), rep in zip(obs["brute"].items(), replies[2:]):
+        nk = len(obs["brute"])
+        models = replies[2 + nk:]
+        for ((k, r), rep), mrep in zip(zip(obs["brute"].items(), replies[2:2 + nk]), models):
             k = int(k)
+            # statement-faithful Lean model of the pinned depth-first search (exact output incl. CPython set order)
+            agrees = r[0] == "ok" and r[1] == mrep["axes"]
+            if not agrees:
+                out.append(Problem("disagreement", case, f"k={k}: model of the brute-force search gives {mrep['axes']}, "
+                                   f"implementation {r}", "model/bf"))
+            _mark = len(out)
             if r[0] != "ok" or r[1] == "malformed":
                 P(f"k_alternative_partition_brut_force(k={k}) failed: {r}", "brute/call")
                 continue
